@@ -118,24 +118,26 @@ def register(R):
     s.opaque = True
     s.requires("wf", WF_PRE)
 
-    def st_enter(a, r):
+    def st_parts(a, r):
         s2 = r[1].val()
         vid = a.self.vehicle_id
         veh = a.sim.vehicles.get(vid).val()
         rid = a.self.request.id
         req = a.sim.requests.get(rid).val()
         n = s2.vehicles.get(vid).val().vehicle_state
-        return Implies(ok(r), And(
-            a.sim.vehicles.has(vid), a.sim.requests.has(rid),
-            same_up_to_instance(n, a.self, "ServicingTrip"),
-            veh.vehicle_state.is_a("DispatchTrip"),
-            grants(a.self.request.membership, veh.membership),                                  # C10
-            route_ok(a.self.route, geoid(req), req.destination_position.geoid),                  # C07
-            Implies(a.self.route.len() > 0, geoid(veh) == geoid(req)),                           # trip starts at the origin
-            s2.vehicles == a.sim.vehicles.set(vid, veh._replace(balance=veh.balance + req.value, vehicle_state=n)),
-            s2.requests == a.sim.requests.delete(rid),
-            same_except(s2, a.sim, ["vehicles", "requests", "r_locations", "r_search"])))
-    s.ensures("acquires_exactly", st_enter, ("C02", "C03", "C07", "C09", "C10"))
+        return {
+            "access": grants(a.self.request.membership, veh.membership),                                   # C10
+            "location": And(route_ok(a.self.route, geoid(req), req.destination_position.geoid),            # C07
+                            Implies(a.self.route.len() > 0, geoid(veh) == geoid(req))),                     # starts at the origin
+            "resources": And(
+                a.sim.vehicles.has(vid), a.sim.requests.has(rid),
+                same_up_to_instance(n, a.self, "ServicingTrip"),
+                veh.vehicle_state.is_a("DispatchTrip"),
+                s2.vehicles == a.sim.vehicles.set(vid, veh._replace(balance=veh.balance + req.value, vehicle_state=n)),
+                s2.requests == a.sim.requests.delete(rid),
+                same_except(s2, a.sim, ["vehicles", "requests", "r_locations", "r_search"]))}
+    for g, props in (("resources", ("C02", "C03", "C09")), ("location", ("C07",)), ("access", ("C10",))):
+        s.ensures(f"enter_{g}", (lambda g: lambda a, r: Implies(ok(r), st_parts(a, r)[g]))(g), props)
     s.ensures("wf_kept", WF_KEPT, ("C08",))
     s.no_raise(("C02",))
 
